@@ -75,6 +75,7 @@ pub fn e1_jobs(prop: &str, tier: Tier) -> (Vec<E1Job>, usize) {
         "C12" => if q { vec![pf(4)] } else { vec![pf(6)] },
         "C13" => if q { vec![pf(4), pe(1, true, 2)] } else { vec![pf(5), pe(2, true, 2)] },
         "C18" => if q { vec![pill(4), pc(7), pbs(3), pn(3)] } else { vec![pill(5), pc(9), pb(4), pn(4), pe(1, true, 2)] },
+        "C19" => if q { vec![pa1(3), pbs(3), pd(4), pe(1, false, 2)] } else { vec![pa(3), pb(3), pd(5), pe(1, true, 2)] },
         "C20" => if q { vec![pn(4), pbs(3), pc(6), pd(4), pe(1, false, 2)] } else { vec![pn(5), pb(4), pc(8), pd(6), pe(1, true, 2)] },
         _ => vec![],
     };
@@ -110,7 +111,7 @@ pub fn run_e1(prop: &str, tier: Tier, budget: Duration, frag: &mut Frag) {
         let remaining = budget.saturating_sub(start.elapsed());
         let share = remaining / (njobs - k) as u32;
         let t0 = Instant::now();
-        let run = E1Run { profile: &job.profile, depth: job.depth, props, need, deadline: t0 + share, threads: threads() };
+        let run = E1Run { c19_maps: if prop == "C19" { if tier == Tier::Quick { 12 } else { 360 } } else { 0 }, profile: &job.profile, depth: job.depth, props, need, deadline: t0 + share, threads: threads() };
         let r = run_profile(&run);
         let wall = t0.elapsed().as_secs_f64();
         frag.parts.push(stats_json(&job.profile.label(), job.depth, &r, wall));
@@ -737,4 +738,90 @@ pub fn run_c16(tier: Tier, budget: Duration, frag: &mut Frag) {
         frag.e2_traces.extend(kept);
         frag.col.merge(col);
     }
+}
+
+// ---------------------------------------------------------------------------
+// C09
+// ---------------------------------------------------------------------------
+
+pub fn run_c09(tier: Tier, budget: Duration, frag: &mut Frag) {
+    let q = tier == Tier::Quick;
+    let t0 = Instant::now();
+    let jobs: Vec<(usize, bool)> = if q { vec![(2, true), (3, false)] } else { vec![(3, true), (4, false)] };
+    let n = jobs.len() as u32;
+    for (depth, full) in jobs {
+        let t1 = Instant::now();
+        let (st, samples) = crate::c09::run(depth, full, t1 + budget / n, threads(), &mut frag.col);
+        frag.parts.push(json!({
+            "engine": "E3 histmc",
+            "what": format!("World map histories: every history of length <= {} over the {} alphabet ({} operations), plus breadth-first closure with de-duplication on the observed state (which of the 6 keys are present)", depth, if full { "full" } else { "core" }, crate::c09::alphabet(full).len()),
+            "histories": st.histories, "operations_applied": st.transitions, "distinct_observed_states": st.states, "max_depth": st.max_depth, "cap_hit": st.capped, "wall_s": t1.elapsed().as_secs_f64(),
+        }));
+        frag.states += st.states + st.histories;
+        frag.transitions += st.transitions;
+        frag.traces_validated += st.histories;
+        frag.exhaustive &= !st.capped;
+        if frag.samples.is_empty() {
+            frag.samples.extend(samples);
+        }
+    }
+    let _ = t0;
+    frag.assumptions.push("resource types: zero-sized, heap-owning, 512-byte; dynamic ids {0,1}; payload identity by serial numbers in a thread-local live set".into());
+}
+
+// ---------------------------------------------------------------------------
+// C08
+// ---------------------------------------------------------------------------
+
+pub fn run_c08(tier: Tier, budget: Duration, frag: &mut Frag) {
+    let q = tier == Tier::Quick;
+    let t0 = Instant::now();
+    let depth = if q { 5 } else { 7 };
+    let (st, samples) = crate::c08::run_bfs(depth, 3, t0 + budget / 2, &mut frag.col);
+    frag.parts.push(json!({
+        "engine": "E3 histmc",
+        "what": format!("borrow histories: breadth-first over {} operations (fetch / fetch_mut / try_* / by-id / 4 composite system-data types / meta-table iter and iter_mut / clone / drop / acquire-then-panic), <= 3 live guards, depth <= {}, de-duplicated on the observed state (per-cell borrow state + live guard shapes)", crate::c08::alphabet(3).len(), depth),
+        "histories_tried": st.histories, "enabled_transitions": st.transitions, "distinct_observed_states": st.states, "max_depth": st.max_depth, "cap_hit": st.capped, "wall_s": t0.elapsed().as_secs_f64(),
+    }));
+    frag.states += st.states;
+    frag.transitions += st.transitions;
+    frag.traces_validated += st.valid_histories;
+    frag.exhaustive &= !st.capped;
+    frag.samples.extend(samples);
+    let jobs: Vec<(usize, u32)> = if q { vec![(2, u32::MAX), (3, 2)] } else { vec![(2, u32::MAX), (3, u32::MAX), (4, 2)] };
+    for (ntasks, bound) in jobs {
+        let t1 = Instant::now();
+        let c = crate::c08::run_concurrent_part(ntasks, bound, t0 + budget, threads(), &mut frag.col);
+        frag.parts.push(json!({
+            "engine": "E2 schedmc",
+            "what": format!("{} controlled tasks, each: acquire one of 6 guards (shared/exclusive on 3 cells, typed and by-id paths), hold across a scheduling point, release; every multiset of tasks; outcome of every acquisition compared with the borrow model applied in the executed order", ntasks),
+            "configurations": c.configs, "preemption_bound": if bound == u32::MAX { json!("unbounded") } else { json!(bound) },
+            "schedules": c.schedules, "states": c.nodes, "transitions": c.transitions, "acquisitions_that_panicked_on_conflict": c.conflicts_seen, "cap_hit": c.capped, "wall_s": t1.elapsed().as_secs_f64(),
+        }));
+        frag.states += c.nodes;
+        frag.transitions += c.transitions;
+        frag.exhaustive &= !c.capped;
+    }
+    frag.assumptions.push("each borrow / release is one atomic RMW inside atomic_refcell (a dependency); operation granularity is therefore the atomicity granularity; memory ordering of the payload is outside this check".into());
+}
+
+// ---------------------------------------------------------------------------
+// C17
+// ---------------------------------------------------------------------------
+
+pub fn run_c17(tier: Tier, budget: Duration, frag: &mut Frag) {
+    let q = tier == Tier::Quick;
+    let t0 = Instant::now();
+    let depth = if q { 5 } else { 12 };
+    let (st, samples) = crate::c17::run(depth, t0 + budget, threads(), &mut frag.col);
+    frag.parts.push(json!({
+        "engine": "E3 histmc",
+        "what": format!("meta-table histories: breadth-first over {} operations (register x5 types incl. one with an address-changing cast, world insert/remove x6 types incl. one never registered, get / get_mut, iter / iter_mut drained, the same with a live shared or exclusive world guard), depth <= {}, de-duplicated on (first-registration order, present set)", crate::c17::alphabet().len(), depth),
+        "histories": st.histories, "distinct_observed_states": st.states, "max_depth": st.max_depth, "cap_hit": st.capped, "wall_s": t0.elapsed().as_secs_f64(),
+    }));
+    frag.states += st.states;
+    frag.transitions += st.transitions;
+    frag.traces_validated += st.histories;
+    frag.exhaustive &= !st.capped;
+    frag.samples.extend(samples);
 }
